@@ -26,11 +26,53 @@ def rtl_event(tf, tfl, rtl_layer, shape, nl, rank, seed, avoid=True):
   layer, steps, structure = build()
   _, _, again = build()
   oshape = layer.compute_output_shape(shape)
+  resp = wiring_response(tf, layer, shape)
   ev = {"ev": "Rtl", "nl": nl, "rank": rank, "inputs": steps.get("inputs", []), "shuffle1": steps.get("shuffle1", []),
         "shuffle2": steps.get("shuffle2", []), "swapped": steps.get("swapped", []), "structure": structure, "again": again,
         "nInc": int(oshape.get("increasing", (None, 0))[1]), "nUnc": int(oshape.get("unconstrained", (None, 0))[1]),
+        "resp": resp,
         "site": {"layer": "rtl"}, "call": {"shape": str(shape), "nl": nl, "rank": rank, "seed": seed}}
   return ev
+
+
+def wiring_response(tf, layer, shape):
+  """Behavioural wiring observation: every lattice gets the kernel  sum(v_d, d monotone) - sum(v_d, d unconstrained),
+  then each supplied column is raised in turn (inputs passed exactly as the shape dictionary is written) and the
+  change of every lattice output is recorded: [supplied as increasing?, min change, max change] * 1024."""
+  cols = []           # (key, item index or None, column)
+  for key, val in shape.items():
+    items = val if isinstance(val, list) else [val]
+    for ii, shp in enumerate(items):
+      for j in range(shp[1]):
+        cols.append((key, ii if isinstance(val, list) else None, j))
+
+  def call(raised):
+    x = {}
+    for key, val in shape.items():
+      items = val if isinstance(val, list) else [val]
+      ts = []
+      for ii, shp in enumerate(items):
+        a = np.full((1, shp[1]), 0.25, dtype=np.float32)
+        if raised is not None and raised[0] == key and (raised[1] is None or raised[1] == ii):
+          a[0, raised[2]] = 0.75
+        ts.append(tf.constant(a))
+      x[key] = ts if isinstance(val, list) else ts[0]
+    y = layer(x)
+    ys = y if isinstance(y, dict) else {"all": y}
+    return np.concatenate([np.asarray(ys[k]).reshape(-1) for k in sorted(ys)])
+  call(None)           # the sub-layers create their variables on the first call
+  for key, sub in layer._lattice_layers.items():
+    monos = [int(v) for v in key.strip("()[] ").replace(" ", "").split(",") if v != ""]
+    rank = len(monos)
+    coords = np.indices((2,) * rank).reshape(rank, -1)          # lattice_size 2
+    k = sum((1.0 if m else -1.0) * coords[d] for d, m in enumerate(monos)).astype(np.float32)
+    sub.kernel.assign(np.repeat(k[:, None], sub.kernel.shape[1], axis=1))
+  base = call(None)
+  resp = []
+  for c in cols:
+    d = call(c) - base
+    resp.append([1 if c[0] == "increasing" else 0, int(round(float(d.min()) * 1024)), int(round(float(d.max()) * 1024))])
+  return resp
 
 
 def rtl_events(tf, tfl, ctx, n_seeds):
@@ -44,6 +86,9 @@ def rtl_events(tf, tfl, ctx, n_seeds):
       ({"unconstrained": [(None, 2), (None, 2)]}, 3, 2),
       ({"increasing": [(None, 3), (None, 2)], "unconstrained": [(None, 1), (None, 2)]}, 4, 3),
       ({"increasing": (None, 4)}, 3, 2),
+      # the same kinds of input with the dictionary written in the other key order (the class docstring's order)
+      ({"unconstrained": [(None, 2)], "increasing": [(None, 2), (None, 1)]}, 3, 2),
+      ({"unconstrained": (None, 3), "increasing": (None, 2)}, 2, 3),
   ]
   evs = []
   for si, (shape, nl, rank) in enumerate(shapes):
